@@ -118,6 +118,8 @@ def rewrites(source, rnd):
 	for w in (2, 4, 8):
 		outs.append('\n'.join(_retab(l, w) for l in lines))                           # tabs -> consistent space width
 	outs.append('# head\n' + source)
+	outs.append('\n'.join(l + '  #' if l and not _inside_open_string(l) else l for l in lines))   # trailing comments with an empty body
+	outs.append('\n'.join(x for l in lines for x in (['#', l] if l and not l.startswith((' ', '\t')) and not _inside_open_string(l) else [l])))  # bare '#' lines before top-level lines
 	return outs
 
 
@@ -181,5 +183,28 @@ def run(tier, seed):
 				fails.append({'source': rw, 'what': f'tokenizer raised {type(e).__name__} on a layout rewrite'})
 				break
 		if len(fails) >= 8:
+			break
+	# one Tokenizer instance used for several sources (as SyntaxParser does for the modules it parses): every parse must equal the parse of a fresh instance,
+	# whatever indentation unit, open brackets or rejected input came before
+	shared = Tokenizer()
+	seq = []
+	for j in range(12 if tier == 'quick' else 60):
+		unit = rnd.choice(['\t', '    ', '  '])
+		src = gen_source(rnd, '\t')
+		src = '\n'.join(_retab(l, len(unit)) if unit != '\t' else l for l in src.split('\n'))
+		if rnd.random() < 0.15:
+			src = 'x = f(a, [b\n'  # an input that leaves brackets open
+		seq.append(src)
+		try:
+			got = [(t.type, t.string) for t in shared.parse(src)]
+		except Exception as e:  # noqa: BLE001
+			got = f'{type(e).__name__}'
+		try:
+			want = [(t.type, t.string) for t in Tokenizer().parse(src)]
+		except Exception as e:  # noqa: BLE001
+			want = f'{type(e).__name__}'
+		n += 1
+		if got != want:
+			fails.append({'source': src, 'history': seq[-3:], 'what': 'a Tokenizer instance that parsed other sources before gives another token sequence than a fresh instance'})
 			break
 	return n, len(distinct), fails
